@@ -154,6 +154,14 @@ class Check:
             if rc != 0:
                 errs = [l for l in out.splitlines() if l.startswith("error")]
                 self.broken.append({"kind": "proof-build", "module": m, "detail": errs[:8]})
+        if self.tier == "thorough":
+            # independent re-check of the compiled proofs with the toolchain's leanchecker
+            good = [m for m in modules if not any(b.get("module") == m for b in self.broken)]
+            if good:
+                rc, out = sh(["lake", "env", "leanchecker"] + good, cwd=LEAN, timeout=3600)
+                self.extra["leanchecker"] = {"modules": good, "ok": rc == 0}
+                if rc != 0:
+                    self.broken.append({"kind": "leanchecker", "detail": out[-800:]})
         return not self.broken
 
     def audit(self, audit_file):
